@@ -52,6 +52,14 @@ CHECKS = {
    technique="differential property-based testing with error interleavings: form sequences fed to aldor -Gloop (erroneous forms from the ill-typed catalogue inserted at drawn positions) versus aldor -Ginterp on the clean file",
    text="Generated sequences of definitions and output statements are fed to the interactive loop one per line, with rejected forms interleaved; the marker lines must equal those of batch interpretation of the clean sequence and every erroneous form must be reported.",
    note="Two loop-only runtime faults are listed known findings matched by fault site.", design="4 C13"),
+ "C14": dict(level="exploration", engine="hypothesis-subprocess",
+   technique="metamorphic property-based testing: two layout renderings of one generated abstract program (braced with perturbed white space / comments / line breaks / indentation, or #pile) must give byte-identical -Fap parse trees",
+   text="Every generated program is rendered canonically and in a second, layout-only different way (including the complete rewrite into indentation-structured #pile form with indent width 1-8 or tabs and escaped line breaks); aldor -Fap must write identical files.",
+   note="Only '--' comments are inserted ('++' documentation comments are part of the tree).", design="4 C14"),
+ "C15": dict(level="exploration", engine="hypothesis-subprocess",
+   technique="metamorphic + absolute-position property-based testing of diagnostics: planted faults x inserted code-free lines (k up to 70000) x include / #line placement x column padding",
+   text="For a program with one planted fault, inserting k code-free lines must move exactly the diagnostics at or after the insertion by k lines and change nothing else; undefined-name and wrong-argument faults must be reported at the planted token's line and column; moved into an included file or behind #line the message must name that file and line.",
+   note="Columns >= 16384 are a listed known finding (14-bit column field).", design="4 C15"),
  "C16": dict(level="exploration", engine="hypothesis-subprocess",
    technique="differential property-based testing over C-generation option tuples: generated programs with long shared-prefix identifiers, gcc compile + link against the shipped runtime, run versus the default-option build",
    text="Generated programs (functions renamed to 40-90 character names sharing a drawn prefix) are compiled with tuples of -Cstandard/-Cold, -Cidhash, -Cidlen, -Csmax (file splitting) and -Clines/-Cno-lines; every emitted C file must compile, the objects must link against the shipped libraries, and the executable must behave like the default build.",
@@ -115,7 +123,7 @@ def main():
             {"name": "rapidcheck-stateful", "path": "harness/containers_rc.cc", "serves_properties": ["C10", "C20"], "kind_free_text": "rapidcheck-generated operation histories against reference models"},
             {"name": "exhaustive-loop+hypothesis", "path": "harness/xfloat_check.cc", "serves_properties": ["C19"], "kind_free_text": "exhaustive bit-pattern loops; Hypothesis-generated literals through the compiler"},
             {"name": "fault-enumeration", "path": "vt/props/c17.py", "serves_properties": ["C17", "C18"], "kind_free_text": "enumerated damage / write-fault points applied to real compiler runs"},
-            {"name": "hypothesis-subprocess", "path": "vt/", "serves_properties": ["C01", "C02", "C03", "C05", "C06", "C07", "C08", "C09", "C12", "C13", "C16"], "kind_free_text": "Hypothesis-generated programs/inputs driving the compiler under test as a subprocess"},
+            {"name": "hypothesis-subprocess", "path": "vt/", "serves_properties": ["C01", "C02", "C03", "C05", "C06", "C07", "C08", "C09", "C12", "C13", "C14", "C15", "C16"], "kind_free_text": "Hypothesis-generated programs/inputs driving the compiler under test as a subprocess"},
         ],
         "checks": checks,
         "not_applicable": na,
